@@ -106,7 +106,7 @@ def cache_key(tier, seed):
     for p in (C.VH, C.DRIVER):
         st = os.stat(p)
         h.update(("%s:%d:%d" % (p, st.st_mtime_ns, st.st_size)).encode())
-    h.update(("v16:%s:%s" % (tier, seed)).encode())
+    h.update(("v17:%s:%s" % (tier, seed)).encode())
     return h.hexdigest()[:16]
 
 
@@ -139,13 +139,15 @@ def run_differential(tier, seed):
         rc, out = C.run([C.VH, "node"] + args + ["--seed", str(seed), "--out", d], timeout=6000)
         if rc != 0:
             raise RuntimeError("node simulator failed: " + out[-1500:])
-        hist, panics = {}, {}
+        hist, panics, trace_findings = {}, {}, {}
         for line in out.splitlines():
             p = line.split(None, 2)
             if p and p[0] == "hist":
                 hist[p[1]] = int(p[2])
             if p and p[0] == "panic":
                 panics[p[2]] = int(p[1])
+            if p and p[0] == "finding" and len(p) == 3:
+                trace_findings[p[1]] = int(p[2])
         n, first, nd = C.run_model_on_shards(d, "node-sim")
         # sectional analysis of the disagreeing lines only
         dis = []
@@ -181,7 +183,7 @@ def run_differential(tier, seed):
         s = {"acceptors": acc, "pel_traces": pn, "pel_events": pev, "pel_rejects": prej[:200],
              "cases": n, "disagreements": len(dis), "dis": dis[:2000], "hist": hist, "panics": panics,
              "classes": len(classes), "class_hist": dict(classes.most_common(12)), "dir": d,
-             "changed_functions": changed_fns}
+             "changed_functions": changed_fns, "trace_findings": trace_findings}
         json.dump(s, open(summ, "w"))
         return s, d
 
@@ -285,6 +287,16 @@ def check(spec, tier, seed, replay=None):
     violation = None
     known = []
     fail = None
+    # patterns the trace extraction itself recognises (spec["trace_findings"]): a listed known finding
+    # is reported as such, an unlisted one is a violation
+    tf_known = []
+    for name in spec.get("trace_findings", []):
+        cnt = summ.get("trace_findings", {}).get(name, 0)
+        if cnt:
+            if any(kf.get("property") == pid and kf.get("signature") == name for kf in load_known()):
+                tf_known.append({"reason": "signature=%s (seen %d times in the simulated executions of the correspondence run)" % (name, cnt), "signature": name})
+            else:
+                broken.append("refinement: %d occurrences of the trace pattern %s" % (cnt, name))
     # the model and the implementation disagree somewhere OUTSIDE this property's projection (or
     # modelled functions changed): not an alarm for this property, but a reason to search harder
     # for a failing input of THIS property on the implementation
@@ -345,7 +357,11 @@ def check(spec, tier, seed, replay=None):
         "violations": 1 if violation else 0,
     }
     C.write_evidence(pid, ev)
-    for kf in known:
+    seen_sigs = set()
+    for kf in tf_known + known:
+        if kf.get("signature") and kf["signature"] in seen_sigs:
+            continue
+        seen_sigs.add(kf.get("signature"))
         print("KNOWN-FINDING: property=%s %s" % (pid, kf["reason"]))
     if violation:
         for b in broken:
